@@ -34,6 +34,9 @@ pub struct Measured {
     pub peak: usize,
     pub largest: usize,
     pub max_request: usize,
+    /// calls of next() repeated after a size rejection (stop_at_error mode), and how many of them returned an item
+    pub retries: usize,
+    pub retries_ok: usize,
 }
 
 /// the error's kind and numbers without a single allocation inside the measuring window: `norm_err` Debug-formats the
@@ -48,12 +51,14 @@ fn lean_err(e: TagIteratorError) -> ErrK {
 }
 
 /// lean driver: no conversion of items (that would allocate in the harness), items dropped immediately
-pub fn measure<T: Spec>(bytes: &[u8], cfg: &ReadCfg, stop_at_error: bool) -> Measured {
+pub fn measure<T: Spec>(bytes: &[u8], cfg: &ReadCfg, stop_at_error: bool, retry_after_size_error: bool) -> Measured {
     let start = allocstat::window_start();
     let mut src = ScriptRead::new(bytes, vec![]);
     let mut items = 0usize;
     let mut err = None;
     let mut raw_err = None;
+    let mut retries = 0usize;
+    let mut retries_ok = 0usize;
     let r = guarded(|| {
         let buffered: Vec<T> = cfg.buffered.iter().filter_map(|id| T::get_master_tag(*id, Master::Start)).collect();
         let mut it = match cfg.capacity {
@@ -81,6 +86,21 @@ pub fn measure<T: Spec>(bytes: &[u8], cfg: &ReadCfg, stop_at_error: bool) -> Mea
                 Some(Err(e)) => {
                     errors += 1;
                     if stop_at_error {
+                        // a caller that logs the error and simply calls next() again must get no further with an oversized element than the
+                        // first call did: the limit holds per input, not per call
+                        if retry_after_size_error && matches!(e, TagIteratorError::CorruptedFileData(ebml_iterable::error::CorruptedFileError::InvalidTagSize { .. })) {
+                            for _ in 0..2 {
+                                retries += 1;
+                                match it.next() {
+                                    Some(Ok(tag)) => {
+                                        drop(tag);
+                                        retries_ok += 1;
+                                    }
+                                    Some(Err(e2)) => drop(e2),
+                                    None => {}
+                                }
+                            }
+                        }
                         // normalised after the window is closed
                         raw_err = Some(e);
                         break;
@@ -100,7 +120,7 @@ pub fn measure<T: Spec>(bytes: &[u8], cfg: &ReadCfg, stop_at_error: bool) -> Mea
     if let Some(e) = raw_err {
         err = Some(norm_err(e));
     }
-    Measured { items, err, panic: r.err(), peak, largest, max_request: src.max_request }
+    Measured { items, err, panic: r.err(), peak, largest, max_request: src.max_request, retries, retries_ok }
 }
 
 fn gen_limit(t: &mut Tape) -> Option<usize> {
@@ -205,7 +225,10 @@ fn stage_header(i: &Input, c: &mut Case) -> Result<(), String> {
     c.nontrivial = (s > m && w >= 2) || (s <= m && (present as u64) < s);
     c.key(&(&bytes, limit, cap, tol));
     c.sample_with(|| format!("element {:#x} ({:?}) declaring {} bytes in a {}-byte size field, {} present, placement {}, limit {:?}, capacity {:?}, tolerate {:03b}: stream {}", id, ty, s, w, present, place, limit, cap, tol, hex(&bytes[..bytes.len().min(64)])));
-    let r = with_spec!(spec, T => measure::<T>(&bytes, &cfg, true));
+    // next() is called again after a size rejection only when nothing in the stream can be read as a size above 64 MiB: an iterator that
+    // wrongly accepts the element on the second call really allocates what it declares, and a failed allocation aborts the process
+    let retry = max_declarable_size(&bytes, u64::MAX) <= 64 << 20;
+    let r = with_spec!(spec, T => measure::<T>(&bytes, &cfg, true, retry));
     c.checks += 1;
     let ctx = |msg: String| format!("{}\n  element {:#x} type {:?} declared size {} (width {}), {} payload bytes present, placement {}\n  limit {:?} capacity {:?} tolerate {:03b}\n  measured: peak growth {} bytes, largest single allocation {}, largest read request {}, {} items, first error {:?}\n  stream: {}", msg, id, ty, s, w, present, place, limit, cap, tol, r.peak, r.largest, r.max_request, r.items, r.err.as_ref().map(|e| e.short()), hex(&bytes[..bytes.len().min(80)]));
     if let Some(p) = &r.panic {
@@ -221,6 +244,10 @@ fn stage_header(i: &Input, c: &mut Case) -> Result<(), String> {
             Some(ErrK::Eof { tag_size: Some(n), .. }) if *n as u64 == s => return Err(ctx("the iterator tried to read the payload of an element above the size limit".into())),
             Some(_) => {}
         }
+        if r.retries_ok > 0 {
+            return Err(ctx(format!("after the size error, calling next() again ({} calls) returned {} item(s): the oversized element is not rejected for good", r.retries, r.retries_ok)));
+        }
+        c.label_if(r.retries > 0, "next_called_again_after_the_size_error");
         let bound = 2 * capv + 4096;
         if r.peak > bound {
             return Err(ctx(format!("rejecting an oversized element cost {} bytes of heap (> 2·capacity + 4 KiB = {})", r.peak, bound)));
@@ -256,7 +283,7 @@ fn stage_stream(i: &Input, c: &mut Case) -> Result<(), String> {
     c.label(m.origin.label());
     c.key(&(&m.bytes, limit, cap, tol));
     c.sample_with(|| format!("{} | limit {} cap {:?} tol {:03b}", describe_mixed(&m), limit, cap, tol));
-    let r = with_spec!(m.spec, T => measure::<T>(&m.bytes, &cfg, false));
+    let r = with_spec!(m.spec, T => measure::<T>(&m.bytes, &cfg, false, false));
     c.checks += 1;
     c.nontrivial = max_declarable_size(&m.bytes, u64::MAX) > limit as u64;
     c.label_if(c.nontrivial, "stream_declares_more_than_limit");
@@ -313,7 +340,7 @@ fn stage_long(i: &Input, c: &mut Case) -> Result<(), String> {
         }
     }
     let cfg = ReadCfg { capacity: Some(cap), max_size: MaxSize::Set(Some(limit)), ..ReadCfg::default() };
-    let r = measure::<crate::dynspec::DynTag>(&bytes, &cfg, true);
+    let r = measure::<crate::dynspec::DynTag>(&bytes, &cfg, true, false);
     c.checks += 1;
     c.nontrivial = true;
     c.key(&(limit, cap, n, lo, x));
